@@ -270,7 +270,7 @@ Print Assumptions C01_registry_judge_sound.
 (* The converse for stage B1: NOTHING UNREACHABLE IS PRESENT, for every world whose answers report the
    requested specifier as the final one (noalias_world) and whose modules declare no asset imports
    (noasset_world: no text / bytes / css imports and no source-phase-only imports - with them the statement
-   is false, F-C01c above), without an npm resolver, for every graph kind, option set, root list and
+   is false, F-C01c above), with or without an npm resolver, for every graph kind, option set, root list and
    configured imports: after a completed build from the empty graph every entry is reachable from the roots
    and the configured import targets along the recorded redirects and the recorded dependencies and types
    dependency of module entries.  Proved by an invariant over every step of the build loop
@@ -278,7 +278,7 @@ Print Assumptions C01_registry_judge_sound.
    judgement is evaluated and this theorem applies must be judged true. *)
 From DG Require Proofs.SoundProofs.
 Theorem C01_b1_sound : forall W o k roots imports g,
-  RunJsrAll.noalias_world W = true -> SoundProofs.noasset_world W = true -> w_npm W = None ->
+  RunJsrAll.noalias_world W = true -> SoundProofs.noasset_world W = true ->
   build W o (empty_bgraph k) roots imports = Some g ->
   forall s sl, In (s, sl) (bg_slots g) ->
     ReachJudge.Reaches (RunJsrAll.b1_edges W g false) (RunJsrAll.b1_starts roots imports) s.
@@ -287,5 +287,5 @@ Print Assumptions C01_b1_sound.
 
 (* non-vacuity: the diamond world of C01_nonvacuous meets the hypotheses *)
 Example C01_b1_sound_nonvacuous :
-  RunJsrAll.noalias_world c01_world = true /\ SoundProofs.noasset_world c01_world = true /\ w_npm c01_world = None.
+  RunJsrAll.noalias_world c01_world = true /\ SoundProofs.noasset_world c01_world = true.
 Proof. vm_compute. repeat split. Qed.
